@@ -171,7 +171,7 @@ def main(argv):
             cases.append(d)
             kinds.append('with-unrelated')
     io, mo = BC.run_builds(cases, timeout=3000)
-    nv = 0
+    nv = nfail = 0
     text_only, any_failing = [], False
     for k in range(0, len(cases), 2):
         for j in (k, k + 1):
@@ -206,8 +206,9 @@ def main(argv):
                     break
         if problem and not failing:
             text_only.append(which)
-        if problem and nv < 5:
+        if problem and (nv < 5 or (failing and nfail < 3)):
             nv += 1
+            nfail += 1 if failing else 0
             any_failing = any_failing or failing
             c = cases[which]
             rep.violation(problem, {'file': c['file'], 'configuration': c['cfg'], 'document': dznjson.to_json(c['file']),
